@@ -527,4 +527,34 @@ theorem foldRequiresAtLeastOne_sound (rx : RegexEngine) (args : List (Name × Va
         exact count_ge_one_of_lt h u (by simpa [hst, Bound.startOk] using hs.1)
 
 
+theorem staticallyRequired_sound (rx : RegexEngine) (args : List (Name × Value)) (i : VInfo)
+    (v : IRVertex) (p : Name) (x : Value) (c : Candidate)
+    (hc : staticallyRequired args i v p = .ok (some c))
+    (hf : ∀ f ∈ v.filters, filterSubject f = some p → StaticFilterPasses rx args f x)
+    (hn : ∀ f ∈ v.filters, filterSubject f = some p → subjectNullable f = false → Cand.isNull x = false) :
+    c.mem x = true ∧ c.wf = true := by
+  unfold staticallyRequired at hc
+  split at hc
+  · simp at hc
+  · split at hc
+    · simp at hc
+    · rename_i f0 rest hfs
+      obtain ⟨oc, hoc, hc⟩ := R_bind_ok hc
+      have hmem : ∀ f ∈ f0 :: rest, f ∈ v.filters ∧ filterSubject f = some p := by
+        intro f hfm
+        rw [← hfs] at hfm
+        have h1 := (List.mem_filter.mp hfm).1
+        have h2 := List.mem_filter.mp h1
+        exact ⟨h2.1, by simpa using h2.2⟩
+      have hoc' : oc = some c := by
+        split at hc
+        · split at hc
+          · simp at hc
+          · simpa using hc
+        · simpa using hc
+      subst hoc'
+      apply staticCandidateOf_sound rx args (subjectNullable f0) (f0 :: rest) x c hoc
+      · intro f hfm; exact hf f (hmem f hfm).1 (hmem f hfm).2
+      · intro hnull; exact hn f0 (hmem f0 (by simp)).1 (hmem f0 (by simp)).2 hnull
+
 end TF.Engine
